@@ -20,13 +20,13 @@ var Keywords = []string{"JSIGHT", "INFO", "Title", "Version", "Description", "SE
 var Sigma = append(append([]string{}, Keywords...),
 	"(", ")", "\n", "\r\n", "\r", " ", "\t", "#", "###", "//", "/*", "*/", "/", "\"", "\\",
 	"@a", "@b", "/a", "/a/{id}", "{}", "[]", "{\"a\":1}", "[1,2]", "@a | @b", "[@a]",
-	"any", "empty", "regex", "jsight", "/abc/", "\"x\"", "0.3", "json-rpc-2.0", "// {enum: @e}",
+	"any", "empty", "regex", "jsight", "/abc/", "/a\\\\/", "\"x\"", "0.3", "json-rpc-2.0", "// {enum: @e}",
 	"{ // {allOf: \"@a\"}\n}", "htmlFormEncoded", "foo", "\x00", "\xff", "1", ":", ",", "{", "}", "[", "]",
 )
 
 // SigmaSmall is a reduced alphabet for deeper exhaustive enumeration.
 var SigmaSmall = []string{"URL", "GET", "200", "TYPE", "ENUM", "Description", "Body", "MACRO", "PASTE", "Request",
-	"(", ")", "\n", " ", "#", "###", "//", "/*", "*/", "/", "\"", "\\", "@a", "/a", "{}", "[1]", "any", "regex", "/abc/", "\"x\"", "foo"}
+	"(", ")", "\n", " ", "#", "###", "//", "/*", "*/", "/", "\"", "\\", "@a", "/a", "{}", "[1]", "any", "regex", "/abc/", "/a\\\\/", "\"x\"", "foo"}
 
 // Prefixes put the scanner into each parameter / body / comment / description /
 // context state before the enumerated tokens follow.
@@ -55,6 +55,7 @@ var Prefixes = []string{
 	"JSIGHT 0.3\nTYPE @a ",
 	"JSIGHT 0.3\nTYPE @a\n",
 	"JSIGHT 0.3\nTYPE @a regex\n",
+	"JSIGHT 0.3\nGET /a\n  200 regex\n",
 	"JSIGHT 0.3\nTYPE @a\n{\"k\": 1}\n",
 	"JSIGHT 0.3\nENUM @e\n",
 	"JSIGHT 0.3\nENUM @e\n[1, ",
